@@ -171,6 +171,10 @@ class TemplateHandler(dict):
         except ParserException as exc:
             print("Failed to load '%s' due to parser errors:\n %s" % (url, exc))
             return None
+        except Exception as exc:
+            # e.g. an include of the file that cannot be resolved
+            print("Failed to load '%s':\n %s" % (url, exc))
+            return None
 
         self[url] = doc
         return doc
